@@ -398,7 +398,7 @@ def run_case(case, rec):
             elif f["mech"] == "write":
                 target = os.path.join(work, "out", fname(scn, f["utt"])) if f["utt"] != "@manifest" else os.path.join(work, "man.txt")
                 os.makedirs(os.path.join(work, "out"), exist_ok=True)
-                st = {"out": os.path.join(work, "strace.txt"), "inject": ["-e", "inject=write,pwrite64,writev:signal=SIGKILL:when=%d" % f["k"], "-P", target]}
+                st = {"out": os.path.join(work, "strace.txt"), "inject": ["-e", "inject=%s:signal=SIGKILL:when=%d" % (f.get("sys", "write"), f["k"]), "-P", target]}
                 rc, err = run_tool(scn, d, work, 0, "NONE", 0, strace=st)
                 killed = rc in (-9, 137) or (isinstance(rc, int) and rc < 0)
                 if not killed:
@@ -406,7 +406,24 @@ def run_case(case, rec):
                     shutil.rmtree(work, ignore_errors=True)
                     continue
                 ev, _ = events(work)
-                fault = "SIGKILL on entry to write #%d to %s" % (f["k"], os.path.basename(target))
+                fault = "SIGKILL on entry to %s #%d to %s" % (f.get("sys", "write"), f["k"], os.path.basename(target))
+                if f.get("torn"):
+                    # the kill falls in the middle of the previous write instead: only the first half of its bytes reached the file
+                    import re
+
+                    sizes = []
+                    for l in open(st["out"]):
+                        m = re.search(r"(?:write|pwrite64|writev)\(\d+<(.+?)>.*\) = (\d+)\s*$", l)
+                        if m and m.group(1) == target:
+                            sizes.append(int(m.group(2)))
+                    if not sizes or sizes[-1] < 2 or not os.path.exists(target) or os.path.getsize(target) != sum(sizes):
+                        rec.count("torn_write_faults_not_constructible")
+                        shutil.rmtree(work, ignore_errors=True)
+                        continue
+                    os.truncate(target, sum(sizes[:-1]) + sizes[-1] // 2)
+                    fault = "SIGKILL in the middle of the last write to %s before its %s #%d (%d of its %d bytes written, file of %d bytes)" % (
+                        os.path.basename(target), f.get("sys", "write"), f["k"], sizes[-1] // 2, sizes[-1], sum(sizes[:-1]) + sizes[-1] // 2)
+                    rec.count("faults_in_the_middle_of_a_write")
                 rec.ev()
                 rec.count("faults_write_manifest" if f["utt"] == "@manifest" else "faults_write_feature_file")
                 # progress known from the event log: manifest statements whose successor event was logged
@@ -458,7 +475,9 @@ def write_counts(scn, seed):
                 if ("write(" in l or "writev(" in l or "pwrite64(" in l) and "<" in l:
                     path = l.split("<", 1)[1].split(">", 1)[0]
                     if path.startswith(os.path.join(work, "out")) or path == os.path.join(work, "man.txt"):
-                        key = os.path.basename(path)
+                        # (strace counts `when=` per system call name: the calls are counted per name here as well)
+                        sysname = "writev" if "writev(" in l else "pwrite64" if "pwrite64(" in l else "write"
+                        key = (os.path.basename(path), sysname)
                         counts[key] = counts.get(key, 0) + 1
         ev, _ = events(work)
         return rc, counts, len(ev)
@@ -481,7 +500,7 @@ def plan(tier, seed):
         for K in range(1, n + 1):
             faults.append({"mech": "stmt", "K": K, "sig": "SIGKILL", "tag": "k%d" % K, "trace": (K % 8 == 3) if q else (K % 3 == 0)})
             faults.append({"mech": "stmt", "K": K, "sig": "SIGINT", "tag": "i%d" % K})
-        for name, cnt in sorted(wc.items()):
+        for (name, sysname), cnt in sorted(wc.items()):
             utt = "@manifest" if name == "man.txt" else uid_of(scn, name)
             ks = list(range(1, cnt + 1))
             if len(ks) > 6 and q:
@@ -489,7 +508,11 @@ def plan(tier, seed):
             elif len(ks) > 16:
                 ks = ks[:6] + ks[len(ks) // 2 - 2: len(ks) // 2 + 2] + ks[-6:]
             for k in ks:
-                faults.append({"mech": "write", "utt": utt, "k": k, "tag": "w%s%d" % (utt.strip("@"), k)})
+                faults.append({"mech": "write", "utt": utt, "k": k, "sys": sysname, "tag": "w%s%s%d" % (utt.strip("@"), sysname, k)})
+        # kills in the middle of a write (its first half written): the kill is placed on entry to the write that follows
+        for (name, sysname), cnt in sorted(wc.items()):
+            if name != "man.txt" and sysname == "write":
+                faults.append({"mech": "write", "utt": uid_of(scn, name), "k": 1, "sys": "write", "torn": True, "tag": "t%s" % uid_of(scn, name)})
         rng = rng_for(seed, "C10", si, 5)
         if q:
             # a few two-fault sequences: first fault after at least one manifest line, second early in the resumed run
